@@ -224,8 +224,11 @@ fn exec_port_flood(seed: u64) -> (Vec<u128>, String, String) {
         // third kind: a local sender is blocked on flow credits when the peer violates the protocol; the protocol error
         // must reach that user too
         let blocked = !dup && r.chance(1, 3);
-        let sig = format!("ep:flood:{}", if dup { "dup" } else if blocked { "blocked" } else { "nolast" });
-        let cfg = Cfg { connection_timeout: None, max_received_ports: maxp, max_ports: 1000, connect_queue: 4, ..Default::default() };
+        // fourth kind: more open requests of one kind than the advertised connect queue, listener alive but idle
+        let openflood = !dup && !blocked && r.chance(1, 3);
+        let cq = r.range(1, 3) as u16;
+        let sig = format!("ep:flood:{}", if dup { "dup" } else if blocked { "blocked" } else if openflood { "opens" } else { "nolast" });
+        let cfg = Cfg { connection_timeout: None, max_received_ports: maxp, max_ports: 1000, connect_queue: if openflood { cq } else { 4 }, ..Default::default() };
         let net = Net::new(true);
         let hello = MultiplexMsg::Hello {
             version: ver,
@@ -236,6 +239,28 @@ fn exec_port_flood(seed: u64) -> (Vec<u128>, String, String) {
         let (mux, _client, mut listener) = ChMux::new(cfg, net.a2b.sink(), net.b2a.stream()).await.expect("handshake");
         let mut run = tokio::spawn(mux.run());
         quiesce().await;
+        if openflood {
+            let wait = r.chance(1, 2);
+            // cq + 1 requests fit (the extra slot is for the client-dropped marker); one more is a violation
+            for i in 0..(cq as u32 + 2) {
+                if run.is_finished() {
+                    return (sig, format!("FAIL: C08 the connection ended after only {i} open requests with a connect queue of {cq}"));
+                }
+                let p = 50 + i;
+                net.b2a.inject(Bytes::from(encode(&MultiplexMsg::OpenPort { client_port: p, wait, id: if ver >= 3 { Some(p) } else { None } })));
+                quiesce().await;
+            }
+            quiesce().await;
+            if !run.is_finished() {
+                return (sig, format!("FAIL: C08 {} unanswered open requests (wait = {wait}) were accepted although the connect queue is {cq}: the request limit is not enforced", cq + 2));
+            }
+            let _keep = &listener;
+            return match (&mut run).await {
+                Ok(Err(ChMuxError::Protocol(_))) => (sig, "ok".into()),
+                Ok(other) => (sig, format!("FAIL: C08 too many open requests ended the dispatcher with {:?} instead of a protocol error", other.map_err(|e| e.to_string()))),
+                Err(_) => (sig, "FAIL: C08 the dispatcher panicked".into()),
+            };
+        }
         // the peer opens a port, the endpoint accepts
         net.b2a.inject(Bytes::from(encode(&MultiplexMsg::OpenPort { client_port: 5, wait: true, id: if ver >= 3 { Some(5) } else { None } })));
         quiesce().await;
@@ -477,6 +502,11 @@ pub fn exec(inp: &[u128]) -> (Vec<u128>, String, String) {
                         sigs.push("take");
                         if let Some(l) = &mut w.listener {
                             if let Some(Ok(Some(req))) = l.inspect().now_or_never() {
+                                // every request the harness sends carries its own port number as id, or no id (then the id
+                                // is documented to be the remote port)
+                                if req.id() != req.remote_port() && w.c09.is_none() {
+                                    w.c09 = Some(format!("FAIL: C09 open request from remote port {} was handed to the listener with id {}", req.remote_port(), req.id()));
+                                }
                                 w.held.insert(req.remote_port(), req);
                             }
                         }
@@ -511,8 +541,18 @@ pub fn exec(inp: &[u128]) -> (Vec<u128>, String, String) {
                     }
                     (9, [k]) => {
                         sigs.push("recv");
+                        let mut bad: Option<String> = None;
                         if let Some(rx) = w.receivers.get_mut(&(BASE + *k)) {
-                            let _ = rx.recv_any().now_or_never();
+                            if let Some(Ok(Some(chmux::Received::Requests(reqs)))) = rx.recv_any().now_or_never() {
+                                for q in &reqs {
+                                    if q.id() != q.remote_port() {
+                                        bad = Some(format!("FAIL: C09 port request for remote port {} (sent with its own number as id, or with no id) was received with id {}", q.remote_port(), q.id()));
+                                    }
+                                }
+                            }
+                        }
+                        if bad.is_some() && w.c09.is_none() {
+                            w.c09 = bad;
                         }
                     }
                     (10, [k]) => {
